@@ -43,6 +43,50 @@ pub struct BitMachine {
     write: Vec<Frame>,
     /// Acceptable source type
     source_ty: Arc<Final>,
+    /// Observation counters for external monitors.
+    #[cfg(feature = "verif-hooks")]
+    verif: VerifStats,
+}
+
+/// Resource use actually observed on a [`BitMachine`] (feature `verif-hooks`).
+#[cfg(feature = "verif-hooks")]
+#[derive(Copy, Clone, Debug, Default, PartialEq, Eq)]
+pub struct VerifStats {
+    /// Maximum value that `next_frame_start` (live cells) ever took.
+    pub hw_cells: usize,
+    /// Maximum of read-stack depth plus write-stack depth.
+    pub hw_frames: usize,
+    /// Maximum read-stack depth.
+    pub hw_read_frames: usize,
+    /// Maximum write-stack depth.
+    pub hw_write_frames: usize,
+    /// Size in bits of the data buffer.
+    pub data_bits: usize,
+    /// Number of frames allocated in total.
+    pub frames_allocated: u64,
+}
+
+#[cfg(feature = "verif-hooks")]
+impl BitMachine {
+    /// Observed resource use of this machine so far.
+    pub fn verif_stats(&self) -> VerifStats {
+        let mut ret = self.verif;
+        ret.data_bits = self.data.len() * 8;
+        ret
+    }
+
+    /// Return and reset this thread's count of frame accesses outside the frame.
+    pub fn verif_take_frame_oob() -> u64 {
+        frame::VERIF_FRAME_OOB.with(|c| c.replace(0))
+    }
+
+    fn verif_note(&mut self) {
+        let v = &mut self.verif;
+        v.hw_cells = v.hw_cells.max(self.next_frame_start);
+        v.hw_frames = v.hw_frames.max(self.read.len() + self.write.len());
+        v.hw_read_frames = v.hw_read_frames.max(self.read.len());
+        v.hw_write_frames = v.hw_write_frames.max(self.write.len());
+    }
 }
 
 impl BitMachine {
@@ -57,6 +101,8 @@ impl BitMachine {
             read: Vec::with_capacity(program.bounds().extra_frames + analysis::IO_EXTRA_FRAMES),
             write: Vec::with_capacity(program.bounds().extra_frames + analysis::IO_EXTRA_FRAMES),
             source_ty: program.arrow().source.clone(),
+            #[cfg(feature = "verif-hooks")]
+            verif: VerifStats::default(),
         })
     }
 
@@ -89,6 +135,11 @@ impl BitMachine {
 
         self.write.push(Frame::new(self.next_frame_start, len));
         self.next_frame_start += len;
+        #[cfg(feature = "verif-hooks")]
+        {
+            self.verif.frames_allocated += 1;
+            self.verif_note();
+        }
     }
 
     /// Move the active write frame to the read frame stack
@@ -96,6 +147,8 @@ impl BitMachine {
         let mut _active_write_frame = self.write.pop().unwrap();
         _active_write_frame.reset_cursor();
         self.read.push(_active_write_frame);
+        #[cfg(feature = "verif-hooks")]
+        self.verif_note();
     }
 
     /// Drop the active read frame
